@@ -750,3 +750,16 @@ func topOutcomes(m map[string]uint64, n int) map[string]uint64 {
 	}
 	return out
 }
+
+// Try runs f and reports a panic (with the first library frame as its site)
+// instead of propagating it, so that one panicking call does not hide the
+// remaining calls of a case.
+func Try(f func()) (panicked bool, site string, val interface{}) {
+	defer func() {
+		if e := recover(); e != nil {
+			panicked, site, val = true, PanicSite(string(debug.Stack())), e
+		}
+	}()
+	f()
+	return
+}
